@@ -18,11 +18,11 @@ pub fn space_for(tier: Tier) -> Space {
     let mut s = Space::new();
     match tier {
         Tier::Quick => {
-            s.tok("T", &gen::T_FULL, 3, 2048).tok("T0", &gen::T_CORE, 4, 2048);
+            s.tok("T", &gen::T_FULL, 3, 2048).tok("T0", &gen::T_CORE, 4, 2048).tok("TU", &gen::T_UNI, 3, 2048);
             s.ast("K", 4, 512).ast("Q", 3, 512).ast("CL", 3, 512).ast("G", 4, 512).ast("AN", 4, 512);
         }
         Tier::Thorough => {
-            s.tok("T", &gen::T_FULL, 4, 4096).tok("T0", &gen::T_CORE, 5, 4096);
+            s.tok("T", &gen::T_FULL, 4, 4096).tok("T0", &gen::T_CORE, 5, 4096).tok("TU", &gen::T_UNI, 4, 4096);
             s.ast("K", 5, 512).ast("Q", 4, 512).ast("CL", 4, 512).ast("G", 5, 512).ast("AN", 5, 512).ast("CI", 4, 512).ast("U", 4, 512);
         }
     }
